@@ -152,6 +152,10 @@ def apply_call(g, L, c, form="method"):
                 getattr(dn, op)(g, ns, t)
             else:
                 getattr(g, op)(ns, t)
+        elif op == "clear":
+            g.clear()
+        elif op == "clear_edges":
+            g.clear_edges()
         elif op == "add_node":
             if c.get("a", 0):
                 g.add_node(L.node(c["n"]), lab=c["a"])
